@@ -10,6 +10,9 @@ import traceback
 
 from harness import core
 
+import logging
+logging.disable(logging.CRITICAL)   # the implementation's own log output is not part of any observation
+
 
 def setup() -> int:
     t = time.time()
